@@ -124,6 +124,20 @@ def apply_perturbation(resp, p):
         m = res.get("measures", {}).get(p[1])
         if m and isinstance(m.get("metadata"), dict):
             m["metadata"].pop("references", None)
+    elif kind == "duplabel":  # ["duplabel", raw_dim_idx, i, j]: element j gets the label of element i
+        _k, di, i, j = p
+        t = res["dimensions"][di]["type"]
+        els = t.get("categories") or t.get("elements") or []
+        if i < len(els) and j < len(els):
+            a, b = els[i], els[j]
+            if "name" in a:
+                b["name"] = a["name"]
+            elif isinstance(a.get("value"), dict) and isinstance(b.get("value"), dict):
+                name = (a["value"].get("references") or {}).get("name")
+                b["value"].setdefault("references", {})["name"] = name
+    elif kind == "typedef_order":  # ["typedef_order", raw_dim_idx, [ids in data order]]
+        _k, di, order = p
+        res["dimensions"][di]["type"]["order"] = order
     elif kind == "dimalias":  # ["dimalias", old_alias, new_alias]: another dataset's variable, same alias
         _k, old, new = p
         for dm in res["dimensions"]:
@@ -196,8 +210,16 @@ def arg_texts(scenario):
     for aid, ad in args.items():
         if "view_of" in ad:
             texts[aid] = texts[ad["view_of"]]
-        elif "compose" in ad:
-            texts[aid] = json.dumps({k: json.loads(texts[v]) for k, v in sorted(ad["compose"].items())})
+    pending = [aid for aid, ad in args.items() if "compose" in ad]
+    while pending:  # composed arguments may name other composed arguments
+        progressed = False
+        for aid in list(pending):
+            if all(r in texts for r in compose_refs(args[aid]["compose"])):
+                texts[aid] = json.dumps(_compose_text(args[aid]["compose"], texts))
+                pending.remove(aid)
+                progressed = True
+        if not progressed:
+            raise ValueError("cyclic composed arguments %r" % (pending,))
     return texts
 
 
@@ -212,8 +234,36 @@ def materialise_arg(scenario, texts, aid, get_arg, argdef=None):
             return toggled_envelope(base)  # the SAME inner dict, wrapped or unwrapped
         return materialise(dict(ad, form="toggle"), texts[aid])
     if "compose" in ad:
-        return {k: get_arg(v) for k, v in ad["compose"].items()}
+        return _compose(ad["compose"], get_arg)
     return materialise(ad, texts[aid])
+
+
+def _compose(tpl, get_arg):
+    """Build a dict from a template whose string leaves name other arguments (shared objects)."""
+    if isinstance(tpl, str):
+        return get_arg(tpl)
+    if isinstance(tpl, dict) and "lit" in tpl and len(tpl) == 1:
+        return json.loads(tpl["lit"])
+    return {k: _compose(v, get_arg) for k, v in tpl.items()}
+
+
+def compose_refs(tpl):
+    if isinstance(tpl, str):
+        return [tpl]
+    if isinstance(tpl, dict) and "lit" in tpl and len(tpl) == 1:
+        return []
+    out = []
+    for v in tpl.values():
+        out.extend(compose_refs(v))
+    return out
+
+
+def _compose_text(tpl, texts):
+    if isinstance(tpl, str):
+        return json.loads(texts[tpl])
+    if isinstance(tpl, dict) and "lit" in tpl and len(tpl) == 1:
+        return json.loads(tpl["lit"])
+    return {k: _compose_text(v, texts) for k, v in sorted(tpl.items())}
 
 
 def arg_text(argdef):
@@ -259,6 +309,10 @@ def materialise(argdef, text):
     form = argdef.get("form", "asis")
     if form == "json":
         return text
+    if form == "double-json":  # JSON text of JSON text: parses, but not to a dict
+        return json.dumps(text)
+    if form == "json-array":  # a tab-book list handed to Cube by mistake
+        return "[%s]" % text
     d = json.loads(text)
     if form == "asis":
         return d
